@@ -80,3 +80,49 @@ From Orda.Proofs Require Import DocFacts.
 Theorem C03_document_value_reads_back : forall t v, canon v -> forall i, jview (fst (create t v i)) = v.
 Proof. exact create_view. Qed.
 Print Assumptions C03_document_value_reads_back.
+
+(* Document: the local API (Put/Remove on objects, Insert/Delete/Update on arrays, each addressed by a path from the
+   root) behaves as the plain JSON operation on the readable value, for EVERY sequence of calls.
+   Definitions (Proofs/DocRefine.v): [plain_call c v] changes the sub-value of v at the call's path by the plain object
+   / slice operation ([vput], [vrm], [plain_insert], [plain_delete], [plain_update]); [run_calls] validates each call
+   and executes it with its operation identifier; [increasing] says the identifiers carry increasing, un-wrapped
+   timestamps (the Lamport clock); [Inv' t s]: s is well-formed, its root is live, its creation timestamps are pairwise
+   distinct and every timestamp in it is at most t — the invariant the theorem also re-establishes. *)
+From Orda.Proofs Require Import TimeFacts OrderFacts DocRefine.
+Theorem C03_document_calls_are_plain : forall cs t s s',
+  ts_bounded t -> Inv' t s -> increasing t cs -> Forall (fun ci => canon_call (fst ci)) cs ->
+  run_calls s cs = Some s' ->
+  jview s' = fold_left (fun v ci => plain_call (fst ci) v) cs (jview s) /\ exists t', Inv' t' s'.
+Proof. exact doc_calls_refine. Qed.
+Print Assumptions C03_document_calls_are_plain.
+
+(* ... in particular from the empty document, whose invariant holds *)
+Theorem C03_document_from_empty : forall cs s',
+  increasing oldest_ts cs -> Forall (fun ci => canon_call (fst ci)) cs -> run_calls doc_init cs = Some s' ->
+  jview s' = fold_left (fun v ci => plain_call (fst ci) v) cs (VObj []).
+Proof. exact doc_calls_refine_init. Qed.
+Print Assumptions C03_document_from_empty.
+
+(* the implementation reaches the container of a call through its table of creation timestamps (NodeMap), the model
+   likewise ([on_node]); where creation timestamps are distinct that IS the container the path names *)
+Theorem C03_document_nodemap_is_path : forall f path s j,
+  NoDup (all_cs s) -> resolve s path = Some j -> on_node s (jc j) f = upd_path s path f.
+Proof. exact on_node_is_path_update. Qed.
+Print Assumptions C03_document_nodemap_is_path.
+
+(* non-vacuity: three calls on the empty document, nested path, array insert *)
+Example C03_document_example :
+  let u := [117] in
+  let cs := [(DPut [] [97] (VObj [([120], VArr [VNum 1])]), mkOpid 0 1 u 1);
+             (DIns [PKey [97]; PKey [120]] 1 [VStr [98]; VBool true], mkOpid 0 2 u 2);
+             (DRmv [] [97], mkOpid 0 3 u 3);
+             (DPut [] [98] (VNum 7), mkOpid 0 4 u 4)] in
+  increasing oldest_ts cs /\ Forall (fun ci => canon_call (fst ci)) cs /\
+  option_map jview (run_calls doc_init (firstn 2 cs)) = Some (VObj [([97], VObj [([120], VArr [VNum 1; VStr [98]; VBool true])])]) /\
+  option_map jview (run_calls doc_init cs) = Some (VObj [([98], VNum 7)]).
+Proof.
+  cbv zeta. split; [|split; [|split; vm_compute; reflexivity]].
+  - cbn [increasing]. repeat split; vm_compute; reflexivity.
+  - repeat constructor.
+Qed.
+Print Assumptions C03_document_example.
